@@ -187,6 +187,18 @@ def wl_history(ctx, rng, case):
                     ctx.count("refused_resizes")
                     after = (sorted(g(line_limit(f.size) * 4, f.get_hashes)), f.quotient, f.elements_added)
                     ctx.check(after == before, f"a refused resize({q2}) changed the filter (step {step})", before=before[1:], after=after[1:])
+            elif r < 0.97 and merged_in and r2.random() < 0.4:
+                # a filter that was merged in earlier is merged in AGAIN (it has not changed; this one may have lost some of its hashes since)
+                other, S2 = r2.choice(merged_in)
+                case.op("merge-again", sorted(S2))
+                try:
+                    g(line_limit(max(size, 64), len(S2) + 2), f.merge, other)
+                    S |= S2
+                    ctx.count("merges_of_a_filter_that_was_merged_in_before")
+                except QuotientFilterError:
+                    got = set(g(line_limit(f.size) * 4, f.get_hashes))
+                    ctx.check(S <= got <= (S | S2), f"a repeated merge that raised left hashes outside [before, before U other] (step {step})")
+                    S = got
             elif r < 0.97:
                 q3 = r2.choice([3, 4, 5, f.quotient, f.quotient])
                 other = P.QuotientFilter(quotient=q3, auto_expand=True, hash_function=hf)
